@@ -1203,10 +1203,16 @@ Token *preprocess(Token *tok) {
   tok = preprocess2(tok);
   if (cond_incl)
     error_tok(cond_incl->tok, "unterminated conditional directive");
-  convert_pp_tokens(tok);
-  join_adjacent_string_literals(tok);
 
   for (Token *t = tok; t; t = t->next)
     t->line_no += t->line_delta;
   return tok;
+}
+
+// Translation phases 6 and 7 for the compiler proper: convert
+// pp-numbers, mark keywords and concatenate adjacent string literals.
+// -E prints the preprocessing tokens themselves and must not do this.
+void convert_preprocessed_tokens(Token *tok) {
+  convert_pp_tokens(tok);
+  join_adjacent_string_literals(tok);
 }
